@@ -236,8 +236,7 @@ Proof.
         set (s4 := upd_last s3 _) in H.
         assert (Hstep : forall c, is_uw c = false -> sol_step s0 (o1 ++ [ODb DbClearWritten] ++ o2 ++ o3) (upd_control s4 c)).
         { intros c Hcu. split.
-          - subst s4. cbn. change (s_unsol (upd_last_bcast s0 None)) with (s_unsol s0) in F.
-            repeat f_equal; congruence.
+          - subst s4. psimpl. psimpl_in F. congruence.
           - split; [exact Hu0|exact Hcu].
           - intros Hl. split.
             + apply Forall_app; split; [auto|]. apply Forall_app; split; [fa_tac|].
